@@ -72,6 +72,11 @@ class AutoOptimizer(PathOptimizer):
             self._optimizer_hyper_cls = HyperOptimizer
 
     def _get_optimizer_hyper_threadsafe(self):
+        if self._optimizer_hyper_cls is HyperOptimizer:
+            # a plain hyperoptimizer accumulates the trials and best tree of
+            # a *single* contraction, so can't be reused for another one
+            return HyperOptimizer(minimize=self.minimize, **self.kwargs)
+
         # since the hyperoptimizer is stateful while running,
         # we need to instantiate a separate one for each thread
         tid = threading.get_ident()
